@@ -332,6 +332,20 @@ class CustomParser(Parser):
         self.block_elements["FencedCode"] = CustomFencedCode
 
 
+def _bare_destination(dest: str) -> str:
+    """A definition's destination as the parser reports it for links: without pointy brackets."""
+    if len(dest) >= 2 and dest.startswith("<") and dest.endswith(">"):
+        return dest[1:-1]
+    return dest
+
+
+def _written_destination(dest: str) -> str:
+    """A destination that holds blanks can only be written in pointy brackets."""
+    if any(c in dest for c in " \t\n"):
+        return f"<{dest}>"
+    return dest
+
+
 class MarkdownNormalizer(Renderer):
     """
     Render Markdown in normalized form. This is the internal implementation
@@ -652,7 +666,7 @@ class MarkdownNormalizer(Renderer):
             (
                 k
                 for k, (dest, title) in self.root_node.link_ref_defs.items()
-                if dest == element.dest
+                if _bare_destination(dest) == element.dest
                 and (_normalize_title_quotes(title, raw=True) if title else None) == link_title
             ),
             None,
@@ -663,7 +677,7 @@ class MarkdownNormalizer(Renderer):
                 return f"[{label}]"
             return f"[{link_text}][{label}]"
         title = f" {link_title}" if link_title is not None else ""
-        return f"[{link_text}]({element.dest}{title})"
+        return f"[{link_text}]({_written_destination(element.dest)}{title})"
 
     @staticmethod
     def _auto_link_text(element: inline.AutoLink) -> str:
@@ -678,7 +692,9 @@ class MarkdownNormalizer(Renderer):
     def render_image(self, element: inline.Image) -> str:
         template = "![{}]({}{})"
         title = f" {_normalize_title_quotes(element.title)}" if element.title else ""
-        return template.format(self.render_children(element), element.dest, title)
+        return template.format(
+            self.render_children(element), _written_destination(element.dest), title
+        )
 
     def render_literal(self, element: inline.Literal) -> str:
         """
